@@ -491,7 +491,11 @@ var healthzVariants = []struct {
 	twice bool
 	extra string // another GET path bound to Health.Check by the configuration
 	via   string // "" local health server, else as in buildSCVia
+	// optFirst: ServiceConfigOption(sc) is created before AddHealthz(sc)
+	// completes the configuration (the option is applied by NewMux)
+	optFirst bool
 }{
+	{name: "option-created-before-AddHealthz", optFirst: true},
 	{name: "health-on-backend", via: "conn"},
 	{name: "health-on-two-backends-first-dropped", via: "conn-twice-drop-first"},
 	{name: "health-on-backend+own-check-rule", via: "conn", pre: []*annotations.HttpRule{{Selector: "grpc.health.v1.Health.Check", Pattern: &annotations.HttpRule_Get{Get: "/readyz"}}}, extra: "/readyz"},
@@ -512,7 +516,25 @@ func healthz(r *mon.Run, rng *rand.Rand) {
 func healthzVariant(r *mon.Run, rng *rand.Rand, vi int) {
 	hv := healthzVariants[vi]
 	hs := lhealth.NewServer()
+	{
+		// another application in this process used AddHealthz on its own
+		// configuration and moved its rules elsewhere: no business of ours
+		other := &serviceconfig.Service{}
+		lhealth.AddHealthz(other)
+		for _, hr := range other.GetHttp().GetRules() {
+			switch p := hr.Pattern.(type) {
+			case *annotations.HttpRule_Get:
+				p.Get = "/internal/healthz"
+			case *annotations.HttpRule_Custom:
+				p.Custom.Path = "/internal/healthz"
+			}
+		}
+	}
 	sc := &serviceconfig.Service{}
+	var early larking.MuxOption
+	if hv.optFirst {
+		early = larking.ServiceConfigOption(sc)
+	}
 	if len(hv.pre) > 0 {
 		sc.Http = &annotations.Http{}
 		for _, hr := range hv.pre {
@@ -526,7 +548,11 @@ func healthzVariant(r *mon.Run, rng *rand.Rand, vi int) {
 	for _, hr := range hv.post {
 		sc.Http.Rules = append(sc.Http.Rules, proto.Clone(hr).(*annotations.HttpRule))
 	}
-	mux, err := larking.NewMux(larking.ServiceConfigOption(sc))
+	scOpt := early
+	if scOpt == nil {
+		scOpt = larking.ServiceConfigOption(sc)
+	}
+	mux, err := larking.NewMux(scOpt)
 	if err != nil {
 		r.Inconclusive("healthz mux: " + err.Error())
 		return
